@@ -519,7 +519,12 @@ class TransformedParameter(AbstractParameter, Parametric, collections.abc.Callab
                 x.append(process_object(xx, dic))
         else:
             x = process_object(data['x'], dic)
-        return cls(data['id'], x, transform)
+        transformed = cls(data['id'], x, transform)
+        # parameters of the transform can be shared objects: listen to them
+        for param in params:
+            if isinstance(param, AbstractParameter):
+                param.add_parameter_listener(transformed)
+        return transformed
 
 
 @register_class
